@@ -23,7 +23,7 @@ package cose
 //@   local n = BinOp#11
 //@   local protected = extract0:call:cose.newEmptyOrSerializedMap#1
 //@   local pub = extract0:TypeAssert#1 | extract0:TypeAssert#2
-//@   props C13 C10(sweep) C01(functional) C04(functional)
+//@   props C13 C10(sweep) C01(functional) C04(functional) C06(functional) C07(functional) C02(functional)
 //@   sweep bounds,panic,make,nilmem
 //@   pure
 //@   ensures! result0 && err == nil && payload == nil ==> SigOk(u(s1), u(key))
@@ -206,7 +206,7 @@ package cose
 //@ func cose.Header.UnmarshalCBORStream
 //@   params hdr r o flattened
 //@   local err = call:cbor.Decoder.Decode#1 | call:cbor.Decoder.Decode#2 | call:cbor.Unmarshal#1 | call:cbor.Unmarshal#2
-//@   props C13 C10(sweep)
+//@   props C13 C11 C10(sweep)
 //@   sweep bounds,panic,make,nilmem
 //@   invariant loop#1: allochere(hdr.Protected)
 //@   invariant loop#2: allochere(hdr.Protected) && allochere(hdr.Unprotected)
